@@ -81,6 +81,8 @@ type opSpec struct {
 	Signer    string `json:"signer,omitempty"`
 	Granted   bool   `json:"granted,omitempty"`
 	NoAccount bool   `json:"no_account,omitempty"`
+	// msg create: the Owner field of the Job inside the message, as sent (hex; the msg server must overwrite it with the creator)
+	ClaimedOwner string `json:"claimed_owner,omitempty"`
 	// wasm / legacy exec: the "sender" member of the message body (any string; "" = member absent for legacy)
 	Claimed string `json:"claimed,omitempty"`
 	// create
@@ -280,6 +282,7 @@ func (e *env) metadata(creator []byte, op *opSpec) (valsettypes.MsgMetadata, []b
 	signer := creator
 	if op.Signer != "" {
 		signer = unhex(op.Signer)
+		e.ensureAccount(e.ctx, signer) // whoever signs a transaction has an account
 		if op.Granted && len(creator) > 0 && len(signer) > 0 {
 			_ = e.grants.GrantAllowance(e.ctx, creator, signer, nil)
 		}
@@ -850,7 +853,10 @@ func runHistory(run *emit.Run, hs *histSpec, tag string) (res *histResult, fatal
 				case "msg":
 					e.ensureAccount(e.ctx, owner)
 					md, signer := e.metadata(owner, &op)
-					msg := &schedtypes.MsgCreateJob{Job: e.mkJob(js, nil), Metadata: md}
+					msg := &schedtypes.MsgCreateJob{Job: e.mkJob(js, unhex(op.ClaimedOwner)), Metadata: md}
+					if op.ClaimedOwner != "" {
+						run.Count("create", "message-names-another-owner")
+					}
 					if aerr := e.admit(e.ctx, msg); aerr != nil {
 						cerr = fmt.Errorf("unauthorised: %w", aerr)
 						vb = false
@@ -1025,7 +1031,7 @@ func runHistory(run *emit.Run, hs *histSpec, tag string) (res *histResult, fatal
 							}
 						}()
 					}
-					run.Count("msg-execute", fmt.Sprintf("signed-by-creator=%v granted=%v authorised=%v account=%v", op.Signer == "", op.Granted, authorised, hasAcct))
+					run.Count("msg-execute", fmt.Sprintf("signed-by-creator=%v granted=%v authorised=%v account=%v ok=%v", op.Signer == "", op.Granted, authorised, hasAcct, xerr == nil))
 					suppliedJSON, suppliedNil = in, in == nil
 					effSender, effContract, cNil = sender, nil, true
 					opTerm = fmt.Sprintf("(OMsgExec %s %s %s %s %s %s %s %s)", cb(sender), emit.Bool(authorised), emit.Bool(hasAcct), cs(op.ID), cob(in, in == nil), preT, pickT, emit.Bool(op.Atomic))
@@ -1348,11 +1354,11 @@ func genHistory(r *rand.Rand, hostile bool) *histSpec {
 	ghost := append([]byte{0x9b}, randAddr(r, 19)...) // an address that never gets an account
 	// who signs a transaction message: mostly its creator; sometimes somebody else, with or without a fee grant of the creator
 	signing := func(op *opSpec, creator string) {
-		if k := r.Intn(7); k == 0 || hostile && k < 3 {
+		if k := r.Intn(4); k == 0 || hostile && k < 2 {
 			other := hex.EncodeToString(accounts[r.Intn(3)])
 			if other != creator {
 				op.Signer = other
-				op.Granted = r.Intn(3) == 0
+				op.Granted = r.Intn(3) != 0 && !hostile || r.Intn(3) == 0
 			}
 		}
 	}
@@ -1447,6 +1453,9 @@ func genHistory(r *rand.Rand, hostile bool) *histSpec {
 			op.Path = "msg"
 			op.Creator = hex.EncodeToString(accounts[r.Intn(len(accounts))])
 			signing(&op, op.Creator)
+			if r.Intn(3) == 0 {
+				op.ClaimedOwner = hex.EncodeToString(accounts[r.Intn(len(accounts))])
+			}
 		case 1:
 			op.Path = "wasm"
 			op.Creator = hex.EncodeToString(contracts[r.Intn(len(contracts))])
